@@ -65,6 +65,8 @@ def special_shapes():
     zws = dm.Zone("keep trailing space \n\t\n   \nlast\t", None, "```")
     znfd = dm.Zone("e\u0301 \u212b \u2126", "txt", "```")
     out.append(("zone-trailing-ws", Doc([A("STATUS", zws), B("B1", [A("TESTS", zws), A("K", v)]), A("OTHER", zws)], meta=META, separator=True)))
+    out.append(("long-floats", Doc([A("STATUS", dm.F(51.4778926)), B("B1", [A("TESTS", dm.F(1234567.89)), A("K", Lst(dm.F(0.30000000000000004), I(12345678901)))]), A("OTHER", dm.F(-0.0014702123))],
+                                   meta=META + [("RATIO", dm.F(2.718281828459045))], separator=True)))
     out.append(("zone-nfd", Doc([A("STATUS", znfd), B("B1", [A("TESTS", znfd), A("K", v)]), A("OTHER", znfd)], meta=META, separator=True)))
     return out
 
@@ -199,6 +201,25 @@ def check_doc(case, via_cli=False) -> Res:
                 dropped = multiset_sub(srck, got_paths)
                 if invented:
                     atoms.append(f"{fmt}:{mode}:invented:path-invented")
+                # a NUMBER shown in the Markdown rendering is a number the source has (formatting may be lossy for lists and
+                # strings, but a scalar number printed as a number must keep its value)
+                src_nums = set()
+                for _p, fv in src:
+                    try:
+                        jv = json.loads(fv)
+                    except ValueError:
+                        continue
+                    if isinstance(jv, (int, float)) and not isinstance(jv, bool):
+                        src_nums.add(float(jv))
+                    elif isinstance(jv, str):
+                        try:
+                            src_nums.add(float(jv))      # a string that spells a number is shown the same way
+                        except ValueError:
+                            pass
+                bad_nums = [(k, x) for k, x in lv.md_numbers(output) if x not in src_nums]
+                if bad_nums:
+                    atoms.append(f"{fmt}:{mode}:invented:number-changed")
+                    invented = list(invented) + bad_nums
                 full = not dropped
             if got is None:
                 md_keys[mode] = sorted(got_paths)
